@@ -241,7 +241,7 @@ if __name__ == "__main__":
     ctx.rng = vlib.Rng(int(os.environ.get("VERIF_SEED", "1")) * 1000003 + 303)
     ctx.model_ok = True
     t0 = time.time()
-    cb = vlib.build_coq()
+    cb = vlib.build_coq(only=vlib.coq_cone(PROP_FILES) if 'PROP_FILES' in globals() else None)
     bad = [f for f in cb.failed_files if f in vlib.coq_cone(PROOF_FILES)]
     if bad:
         print("coq files failed:", bad)
